@@ -185,6 +185,13 @@ def single_assignments(fnode: ast.AST) -> Dict[str, ast.expr]:
             stores[n.id] = stores.get(n.id, 0) + 1
         if isinstance(n, ast.Assign) and len(n.targets) == 1 and isinstance(n.targets[0], ast.Name):
             rhs[n.targets[0].id] = n.value
+        elif isinstance(n, ast.Assign) and len(n.targets) == 1 and isinstance(n.targets[0], (ast.Tuple, ast.List)) \
+                and isinstance(n.value, (ast.Tuple, ast.List)) and len(n.value.elts) == len(n.targets[0].elts):
+            # a, b = x, y  (pairwise, when no element is starred)
+            if not any(isinstance(e, ast.Starred) for e in list(n.targets[0].elts) + list(n.value.elts)):
+                for t_, v_ in zip(n.targets[0].elts, n.value.elts):
+                    if isinstance(t_, ast.Name):
+                        rhs[t_.id] = v_
         elif isinstance(n, ast.AnnAssign) and isinstance(n.target, ast.Name) and n.value is not None:
             rhs[n.target.id] = n.value
         elif isinstance(n, ast.AugAssign) and isinstance(n.target, ast.Name):
@@ -259,3 +266,26 @@ def enclosing_iterations(fnode: ast.AST, inner: ast.AST) -> List[Tuple[ast.AST, 
             return
     rec(fnode)
     return out
+
+
+def expanded_keywords(fnode: ast.AST, call: ast.Call):
+    """Keyword arguments of a call with `**d` expanded when d is a singly-assigned dict display / dict(...) call (or a
+    call of a private helper returning one, once inlined). Returns (mapping name -> expression, complete?) — complete is
+    False when some `**x` could not be expanded."""
+    out: Dict[str, ast.expr] = {}
+    complete = True
+    for kw in call.keywords:
+        if kw.arg is not None:
+            out[kw.arg] = kw.value
+            continue
+        v = expand_locals(fnode, kw.value)
+        if isinstance(v, ast.Dict) and all(isinstance(k, ast.Constant) and isinstance(k.value, str) for k in v.keys):
+            for k, x in zip(v.keys, v.values):
+                out[k.value] = x
+        elif isinstance(v, ast.Call) and isinstance(v.func, ast.Name) and v.func.id == "dict" and not v.args \
+                and all(k.arg is not None for k in v.keywords):
+            for k in v.keywords:
+                out[k.arg] = k.value
+        else:
+            complete = False
+    return out, complete
